@@ -40,8 +40,9 @@ func classNames() (n []string) {
 // (hops of the document, --max-hops): outlinks are allowed iff hops < max-hops.
 // The third figure switches --domains-crawl on (with the planted hosts as its domains): a link into a crawled
 // domain is queued whatever the hop count of the document.
-var hopCfg = [][3]int{{0, 1, 0}, {1, 1, 0}, {0, 0, 0}, {0, 0, 1}, {2, 2, 1}}
-var hopNames = []string{"hops0-max1", "hops1-max1", "hops0-max0", "hops0-max0-domains-crawl", "hops2-max2-domains-crawl"}
+// The fourth figure switches --disable-assets-capture on: nothing is fetched as an asset, the outlinks are due as before.
+var hopCfg = [][4]int{{0, 1, 0, 0}, {1, 1, 0, 0}, {0, 0, 0, 0}, {0, 0, 1, 0}, {2, 2, 1, 0}, {0, 1, 0, 1}, {0, 0, 1, 1}}
+var hopNames = []string{"hops0-max1", "hops1-max1", "hops0-max0", "hops0-max0-domains-crawl", "hops2-max2-domains-crawl", "hops0-max1-no-assets", "hops0-max0-domains-crawl-no-assets"}
 
 // ---------------------------------------------------------------- oracle
 
@@ -83,7 +84,7 @@ func judgeDocFrom(c *Case, server string) (fs []failure, links int, trace any) {
 	if server != "" {
 		h["Server"] = server
 	}
-	r := fetch(c.URL, c.Hops, c.MaxHops, response{Header: h, Body: c.Body, Direct: c.Direct, DC: c.DC})
+	r := fetch(c.URL, c.Hops, c.MaxHops, response{Header: h, Body: c.Body, Direct: c.Direct, DC: c.DC, DAC: c.DAC})
 	links = len(r.Children) + len(r.Outlinks)
 	if r.Panic != "" {
 		return []failure{{Type: "panic", Detail: r.Panic}}, links, r
@@ -99,6 +100,14 @@ func judgeDocFrom(c *Case, server string) (fs []failure, links int, trace any) {
 		child, out := children[mustCanon(p.Abs)], outlinks[mustCanon(p.Abs)]
 		bad := ""
 		switch {
+		case c.DAC:
+			// the operator turned the capture of assets off: nothing is due as an asset (and nothing may become one);
+			// what is due as an outlink stays due: the URLs without extension of JSON/XML/RSS, every URL of a sitemap
+			if child {
+				bad = "asset-despite-disable-assets-capture"
+			} else if allowed && !out && (c.Kind == "sitemap" || c.Kind != "m3u8" && !p.Ext) {
+				bad = "not-an-outlink-with-assets-capture-off"
+			}
 		case c.Kind == "m3u8":
 			if !child {
 				bad = "playlist-uri-not-an-asset"
@@ -303,7 +312,7 @@ func (s *jsonSpace) Build(d []int) *Case {
 	j := &jser{rot: d[1], pretty: d[2] == 1, esc: d[3]}
 	body := j.ser(s.shapes[d[0]], "")
 	return &Case{Kind: "json", URL: docURL, CType: "application/json", Body: body,
-		Hops: hopCfg[s.hops[d[4]]][0], MaxHops: hopCfg[s.hops[d[4]]][1], DC: hopCfg[s.hops[d[4]]][2] == 1, Planted: j.planted}
+		Hops: hopCfg[s.hops[d[4]]][0], MaxHops: hopCfg[s.hops[d[4]]][1], DC: hopCfg[s.hops[d[4]]][2] == 1, DAC: hopCfg[s.hops[d[4]]][3] == 1, Planted: j.planted}
 }
 
 // ---------------------------------------------------------------- XML, RSS, sitemap
@@ -421,7 +430,7 @@ func (s *xmlSpace) Build(d []int) *Case {
 	b.WriteString(i1 + "</" + pfx + k.wrap + ">" + nl)
 	b.WriteString(cl + nl)
 	hc := hopCfg[d[7]]
-	return &Case{Kind: k.kind, URL: docURL, CType: k.ctypes[d[5]], Body: b.String(), Hops: hc[0], MaxHops: hc[1], DC: hc[2] == 1, Planted: planted}
+	return &Case{Kind: k.kind, URL: docURL, CType: k.ctypes[d[5]], Body: b.String(), Hops: hc[0], MaxHops: hc[1], DC: hc[2] == 1, DAC: hc[3] == 1, Planted: planted}
 }
 
 // ---------------------------------------------------------------- M3U8
@@ -487,7 +496,7 @@ func (s *mediaSpace) Build(d []int) *Case {
 	}
 	hc := hopCfg[d[6]]
 	return &Case{Kind: "m3u8", URL: docURL, CType: m3uCTypes[d[4]], Body: strings.Join(l, []string{"\n", "\r\n"}[d[3]]) + []string{"\n", "\r\n"}[d[3]],
-		Hops: hc[0], MaxHops: hc[1], DC: hc[2] == 1, Planted: planted, Direct: d[7] == 0}
+		Hops: hc[0], MaxHops: hc[1], DC: hc[2] == 1, DAC: hc[3] == 1, Planted: planted, Direct: d[7] == 0}
 }
 
 // Master playlists: every sequence of 1..maxLen entries from V (EXT-X-STREAM-INF + URI line),
@@ -601,5 +610,5 @@ func (s *masterSpace) Build(d []int) *Case {
 	}
 	hc := hopCfg[d[4]]
 	eol := []string{"\n", "\r\n"}[d[1]]
-	return &Case{Kind: "m3u8", URL: docURL, CType: m3uCTypes[d[2]], Body: strings.Join(l, eol) + eol, Hops: hc[0], MaxHops: hc[1], DC: hc[2] == 1, Planted: planted, Direct: d[5] == 0}
+	return &Case{Kind: "m3u8", URL: docURL, CType: m3uCTypes[d[2]], Body: strings.Join(l, eol) + eol, Hops: hc[0], MaxHops: hc[1], DC: hc[2] == 1, DAC: hc[3] == 1, Planted: planted, Direct: d[5] == 0}
 }
